@@ -214,13 +214,15 @@ def minimise_crash(exe, spec, d, workdir, budget=160):
 
 # ---------------------------------------------------------------------------
 def known_findings():
-    p = os.path.join(VERIF, 'known_findings.jsonl')
+    """entries of known_findings.txt with status 'known' (fixed entries suppress nothing)"""
+    p = os.path.join(VERIF, 'known_findings.txt')
     out = []
     if os.path.exists(p):
         for line in open(p):
             line = line.strip()
-            if line and not line.startswith('#'):
-                out.append(json.loads(line))
+            m = re.match(r'known:\s+property=(\S+)\s+signature=(.*?)\s+::\s+(.*)$', line)
+            if m:
+                out.append(dict(property=m.group(1), status='known', signature=m.group(2), what=m.group(3)))
     return out
 
 
